@@ -24,7 +24,8 @@ def report (entries : List (String × String)) (toks : List (String × String)) 
 /-- model: a value written under a key arrives in the field whose yaml tag is that key (Gen.Wiring.fields);
     specification: in the field documented under that key (Spec.ConfigWiring.documented) -/
 def conf : Handler := fun args =>
-  match args.mapM parseTok with
+  -- `#pad=<n>` tokens make the harness write n octets of YAML comments at that point of the file: no effect on the values
+  match (args.filter fun a => !a.startsWith "#pad=").mapM parseTok with
   | some toks =>
     (report (Gen.Wiring.fields.map fun f => (f.1, f.2.2)) toks, report Spec.ConfigWiring.documented toks)
   | none => badOp
